@@ -440,14 +440,14 @@ def analyse(items):
             break
         if k == "csm":
             csm = True
-            if it.elective:
+            if it.elective and e.elective != "non-utf8":
                 e.elective = it.elective
             continue
         if not csm:
             # anything but a CSM first: peer breaks RFC 8323 5.3; outcome open, only the gate is judged
             e.stop, e.stop_i = "precsm", i
             break
-        if it.elective:
+        if it.elective and e.elective != "non-utf8":
             e.elective = it.elective
         if k in ("req", "resp"):
             e.disp.append(it.snap)
@@ -539,6 +539,15 @@ def judge(env, rig, items, exp, case, chunks, section):
         got = [d for d in dispatched if d[1] != 0]
 
     nd = len(exp.disp)
+    # An Abort/close that came EARLIER than the model's stop item shows as missing dispatches or
+    # missing Pongs. If a signalling message with an unknown elective option precedes the stop item,
+    # that is reported once under the elective-option key instead of its secondary symptoms.
+    early = False
+    if exp.stop is not None and exp.elective and (t.closing or aborts) and rig.escape is None:
+        if (len(got) < nd and got == exp.disp[: len(got)]) or pongs[: len(exp.pongs)] != exp.pongs:
+            early = True
+            rep.monitor("elective_sig_option_ignored")
+            viol("sig-elective-option/aborted" + ("/non-utf8-value" if exp.elective == "non-utf8" else ""), "a signalling message carrying an unknown ELECTIVE option made the endpoint abort/close instead of ignoring the option (messages that followed it were not processed)")
     # ---- (a) the judged prefix ---------------------------------------------------------------
     rep.monitor("dispatch_equals_sent")
     if section == "short":
@@ -547,8 +556,8 @@ def judge(env, rig, items, exp, case, chunks, section):
     if got[:nd] != exp.disp:
         prefix_ok = False
         if len(got) < nd and got == exp.disp[: len(got)]:
-            if rig.escape is not None:
-                pass  # the escape is the reported cause
+            if rig.escape is not None or early:
+                pass  # the cause is already reported
             elif exp.stop is None and (t.closing or aborts):
                 pass  # reported below as an unjustified abort
             else:
@@ -615,7 +624,7 @@ def judge(env, rig, items, exp, case, chunks, section):
                     viol("abort/%s/closed-without-abort" % exp.cls, "connection closed but no Abort (7.05) written before the close for class %s" % exp.cls)
                 elif not t.closing:
                     viol("abort/%s/abort-without-close" % exp.cls, "Abort written but transport not closed for class %s" % exp.cls)
-            if pongs[: len(exp.pongs)] != exp.pongs and rig.escape is None:
+            if pongs[: len(exp.pongs)] != exp.pongs and rig.escape is None and not early:
                 rep.monitor("ping_pong")
                 viol("ping/no-pong", "a Ping preceding the aborted frame was not answered with its token", pong_tokens=[p.hex() for p in pongs], ping_tokens=[p.hex() for p in exp.pongs])
             if t.late:
@@ -637,7 +646,7 @@ def judge(env, rig, items, exp, case, chunks, section):
                 rep.count("dispatch_after_peer_release_or_abort")
             errs = [e for e in rig.tm.errors if e is not None]
             rep.count("peerclose_error_signalled" if errs else "peerclose_no_error_signalled")
-            if pongs[: len(exp.pongs)] != exp.pongs and rig.escape is None:
+            if pongs[: len(exp.pongs)] != exp.pongs and rig.escape is None and not early:
                 rep.monitor("ping_pong")
                 viol("ping/no-pong", "a Ping preceding Release/Abort was not answered with its token")
         elif exp.stop == "emptyx":
@@ -1342,3 +1351,348 @@ class Sections:
             self.outrand_one("server" if i % 2 else "client", i)
         if self.shard["index"] < 2:
             self.out_noresponse(("server", "client")[self.shard["index"]])
+
+    # =========================================================================
+    # end-to-end on a real Context
+    # =========================================================================
+
+    def feed_transport(self, t, chunks, case, what):
+        """Deliver chunks like the selector would; an escape is a violation."""
+        for ch in chunks:
+            try:
+                if not t.deliver(ch):
+                    return
+            except Exception as e:
+                self.rep.violation(escape_key(e), "TcpConnection.data_received let %s escape (%s)" % (type(e).__name__, what), {"tb": self.rep.exception_witness(e), "chunk": ch[:64].hex()}, case)
+                return
+
+    def pick_chunking(self, r, data, starts):
+        k = r.randrange(4)
+        if k == 0 or len(data) < 2:
+            return "whole", [data]
+        if k == 1:
+            return "single", [data[i : i + 1] for i in range(len(data))]
+        if k == 2:
+            return "per-frame", chunk_cuts(data, starts)
+        return "random", chunk_cuts(data, [r.randrange(1, len(data)) for _ in range(r.choice([1, 2, 5]))])
+
+    async def e2e_client_case(self, i):
+        import asyncio
+
+        env, rep, rt = self.env, self.rep, self.rt
+        aiocoap = env.aiocoap
+        case = ["e2ec", i]
+        r = self.rng("e2ec", i)
+        del env.conns[:]
+        ctx = await aiocoap.Context.create_client_context(transports=["tcpclient"], loggername="coap")
+        try:
+            nreq = r.choice([1, 1, 2, 3])
+            sent = []
+            futs = []
+            for j in range(nreq):
+                segs = [r.choice(["a", "sensor", "x" * 13, "ä"]) for _ in range(r.randrange(0, 3))]
+                put = r.random() < 0.4
+                payload = r.randbytes(r.choice([1, 12, 13, 268, 269, 700])) if put else b""
+                m = aiocoap.Message(code=aiocoap.PUT if put else aiocoap.GET, uri="coap+tcp://peer.example/" + "/".join(segs), payload=payload)
+                sent.append((3 if put else 1, segs, payload))
+                futs.append(asyncio.ensure_future(ctx.request(m).response))
+            await asyncio.sleep(0.001)
+            if len(env.conns) != 1:
+                rep.inconc("e2e client: expected one fake connection, got %d" % len(env.conns))
+                return
+            t = env.conns[0]
+            # ---- (b) what the real stack wrote: own CSM, then the requests ------------------
+            rep.monitor("e2e_outgoing_request")
+            try:
+                frames, rest = rt.decode_stream(bytes(t.out))
+            except rt.Malformed as e:
+                rep.violation("outgoing/e2e-bytes-not-frames", "bytes written by the client context are not well-formed RFC 8323 frames (%s)" % e.kind, {"bytes": bytes(t.out)[:200].hex()}, case)
+                return
+            reqs = [f for f in frames if rt.is_request(f.code)]
+            okb = (not rest) and frames and frames[0].code == rt.CSM and len(reqs) == nreq and len(frames) == nreq + 1
+            if okb:
+                for f, (code, segs, payload) in zip(reqs, sent):
+                    want_opts = [(3, b"peer.example")] + [(11, s.encode("utf8")) for s in segs]
+                    if f.code != code or f.payload != payload or list(f.options) != want_opts or len(f.token) > 8:
+                        okb = False
+                if len({f.token for f in reqs}) != len(reqs):
+                    okb = False
+            if not okb:
+                rep.violation("outgoing/e2e-request-differs", "requests written by the client context do not decode (independently) to what the application sent", {"frames": [rt.describe(f) for f in frames[:6]], "rest": rest[:40].hex(), "sent": repr(sent)[:400]}, case)
+                return
+            # ---- the scripted peer -----------------------------------------------------------------
+            items = []
+            csm_first = r.random() < 0.85
+            if csm_first:
+                items.append(gen_csm(rt, r, elective=r.random() < 0.1))
+            answered = {}
+            if csm_first and r.random() < 0.5:
+                j = r.randrange(nreq)
+                pl = r.randbytes(r.choice([0, 5, 13, 269]))
+                items.append(frame_item(rt, rt.Frame(69, reqs[j].token, (), pl)))
+                answered[j] = pl
+            if r.random() < 0.3:
+                items.append(gen_signal(rt, r, rt.PONG))
+            closer_code = r.choice([rt.RELEASE, rt.ABORT])
+            closer = gen_signal(rt, r, closer_code, elective=r.random() < 0.15)
+            items.append(closer)
+            if r.random() < 0.3:
+                items.append(frame_item(rt, rt.Frame(rt.PING, b"\x09", (), b"")))
+            data = b"".join(it.data for it in items)
+            starts = []
+            p = 0
+            for it in items:
+                starts.append(p)
+                p += len(it.data)
+            ccl, chunks = self.pick_chunking(r, data, starts)
+            self.feed_transport(t, chunks, case, "client context")
+            await asyncio.sleep(0.001)
+            pending = [f for f in futs if not f.done()]
+            if pending:
+                await asyncio.wait(pending, timeout=400)  # virtual seconds
+            rep.monitor("release_abort_fail_pending")
+            name = SIG_NAMES[closer_code]
+            outcome = "ok"
+            try:
+                after, _ = rt.decode_stream(bytes(t.out))
+            except rt.Malformed:
+                after = []
+            own_abort = any(f.code == rt.ABORT for f in after)
+            el = [it.elective for it in items[: items.index(closer)] if it.elective]
+            if own_abort and csm_first:
+                # everything the peer sent up to its Release/Abort was well-formed
+                if el:
+                    key = "sig-elective-option/aborted" + ("/non-utf8-value" if "non-utf8" in el else "")
+                    rep.monitor("elective_sig_option_ignored")
+                elif closer.elective:
+                    key = None  # reaction to the peer's own closing message: not judged
+                    rep.count("own_abort_in_reaction_to_peer_%s_with_elective_option" % SIG_NAMES[closer_code])
+                else:
+                    key = "wellformed-stream/aborted"
+                if key:
+                    rep.violation(key, "a well-formed peer stream made the client context send Abort", {"peer_items": [it.brief() for it in items], "chunking": ccl, "written": [rt.describe(f) for f in after[-3:]]}, case)
+                    outcome = "violation"
+                    answered = {} if el else answered
+
+            def wit(**kw):
+                w = {"requests": repr(sent)[:300], "peer_items": [it.brief() for it in items], "chunking": ccl, "chunk_sizes": [len(c) for c in chunks][:40], "csm_first": csm_first, "answered": sorted(answered)}
+                w.update(kw)
+                return w
+
+            for j, f in enumerate(futs):
+                if j in answered:
+                    if not f.done() or f.cancelled() or f.exception() is not None:
+                        if csm_first and outcome == "ok":
+                            rep.violation("e2e-client/response-not-delivered", "a response sent after the CSM and before %s did not complete its request" % name, wit(request=j, state=repr(f)[:200]), case)
+                            outcome = "violation"
+                    elif bytes(f.result().payload) != answered[j] or int(f.result().code) != 69:
+                        rep.violation("e2e-client/response-differs", "the delivered response differs from the one sent", wit(request=j), case)
+                        outcome = "violation"
+                    continue
+                if not f.done():
+                    rep.violation("peer-close/%s/pending-not-failed" % name, "a request pending on the connection was not failed after the peer's %s (still pending 400 virtual seconds later)" % name, wit(request=j), case)
+                    outcome = "violation"
+                elif f.cancelled() or f.exception() is None:
+                    rep.violation("peer-close/%s/pending-completed-without-error" % name, "a pending, unanswered request completed without an error after the peer's %s" % name, wit(request=j, state=repr(f)[:200]), case)
+                    outcome = "violation"
+                elif not isinstance(f.exception(), env.error.NetworkError):
+                    ex = f.exception()
+                    rep.violation("peer-close/%s/not-a-network-error/%s" % (name, type(ex).__name__), "pending request failed with %s, which is not an aiocoap.error.NetworkError" % type(ex).__name__, wit(request=j, exc=repr(ex)), case)
+                    outcome = "violation"
+                else:
+                    rep.seen("pending_failure_types", type(f.exception()).__name__)
+            rep.case(("e2ec", nreq, csm_first, tuple(item_sig(it) for it in items), ccl, outcome), nontrivial=True)
+            if i < 2:
+                rep.sample({"section": "e2e-client", "requests": repr(sent)[:200], "peer_items": [it.brief() for it in items], "chunking": ccl, "failures": [type(f.exception()).__name__ if f.done() and not f.cancelled() and f.exception() else "result" for f in futs]})
+        finally:
+            for f in futs if "futs" in locals() else []:
+                if not f.done():
+                    f.cancel()
+            await self.shutdown_ctx(ctx)
+
+    async def e2e_server_case(self, i):
+        import asyncio
+
+        env, rep, rt = self.env, self.rep, self.rt
+        aiocoap = env.aiocoap
+        import aiocoap.resource as resource
+
+        case = ["e2es", i]
+        r = self.rng("e2es", i)
+
+        class X(resource.Resource):
+            async def render_get(self, request):
+                return aiocoap.Message(payload=b"value-x")
+
+        class Echo(resource.Resource):
+            async def render_post(self, request):
+                return aiocoap.Message(code=aiocoap.CHANGED, payload=bytes(request.payload))
+
+        site = resource.Site()
+        site.add_resource(["x"], X())
+        site.add_resource(["echo"], Echo())
+        del env.servers[:]
+        ctx = await aiocoap.Context.create_server_context(site, transports=["tcpserver"], loggername="coap-server")
+        try:
+            if len(env.servers) != 1:
+                rep.inconc("e2e server: expected one fake listening server, got %d" % len(env.servers))
+                return
+            t = env.servers[0].accept()
+            own = len(t.out)
+            items = [gen_csm(rt, r, elective=r.random() < 0.1)]
+            want = Counter()
+            n = r.choice([1, 2, 3, 5, 8])
+            nempty = nping = 0
+            for j in range(n):
+                k = r.random()
+                tok = bytes([j + 1]) + r.randbytes(r.randrange(0, 7))
+                if k < 0.3:
+                    items.append(frame_item(rt, rt.Frame(1, tok, ((11, b"x"),), b"")))
+                    want[(69, tok, b"value-x")] += 1
+                elif k < 0.5:
+                    pl = r.randbytes(r.choice([1, 12, 13, 268, 269, 800]))
+                    items.append(frame_item(rt, rt.Frame(2, tok, ((11, b"echo"),), pl)))
+                    want[(68, tok, pl)] += 1
+                elif k < 0.8:
+                    items.append(frame_item(rt, rt.Frame(0, b"", (), b"")))
+                    nempty += 1
+                else:
+                    items.append(frame_item(rt, rt.Frame(rt.PING, tok, (), b"")))
+                    want[(rt.PONG, tok, b"")] += 1
+                    nping += 1
+            data = b"".join(it.data for it in items)
+            starts = []
+            p = 0
+            for it in items:
+                starts.append(p)
+                p += len(it.data)
+            ccl, chunks = self.pick_chunking(r, data, starts)
+            self.feed_transport(t, chunks, case, "server context")
+            await asyncio.sleep(0.001)
+            rep.monitor("e2e_server")
+            if nempty:
+                rep.monitor("empty_ignored")
+            if nping:
+                rep.monitor("ping_pong")
+            outcome = "ok"
+
+            def wit(**kw):
+                w = {"items": [it.brief() for it in items], "chunking": ccl, "chunk_sizes": [len(c) for c in chunks][:40], "written_after_own_csm": bytes(t.out[own:])[:200].hex(), "closing": t.closing}
+                w.update(kw)
+                return w
+
+            try:
+                frames, rest = rt.decode_stream(bytes(t.out[own:]))
+            except rt.Malformed as e:
+                rep.violation("outgoing/e2e-bytes-not-frames", "bytes written by the server context are not well-formed RFC 8323 frames (%s)" % e.kind, wit(), case)
+                return
+            got = Counter((f.code, f.token, f.payload) for f in frames)
+            missing = want - got
+            extra = got - want
+            if rest:
+                rep.violation("outgoing/e2e-bytes-not-frames", "a partial frame was written by the server context", wit(), case)
+                outcome = "violation"
+            if t.closing or any(f.code == rt.ABORT for f in frames):
+                key = "sig-elective-option/aborted" + ("/non-utf8-value" if items[0].elective == "non-utf8" else "") if items[0].elective else "wellformed-stream/aborted"
+                rep.violation(key, "a well-formed stream made the server context abort/close", wit(), case)
+                outcome = "violation"
+            else:
+                for code, tok, pl in missing:
+                    if code == rt.PONG:
+                        k2 = "ping/pong-token-differs" if any(c == rt.PONG for c, _, _ in extra) else "ping/no-pong"
+                        rep.violation(k2, "a Ping was not answered by a Pong carrying its token", wit(token=tok.hex()), case)
+                    else:
+                        rep.violation("e2e-server/response-missing-or-differs", "a request received over TCP was not answered with the expected response", wit(token=tok.hex(), extra=[(c, tk.hex(), len(p_)) for c, tk, p_ in extra][:4]), case)
+                    outcome = "violation"
+                spurious = [(c, tk, p_) for (c, tk, p_) in extra if not any(c == mc and c != rt.PONG for mc, _, _ in missing)]
+                for c, tk, p_ in spurious:
+                    if c == rt.PONG:
+                        continue
+                    if nempty and rt.is_response(c) and tk == b"":
+                        rep.violation("empty/answered", "an empty message (code 0.00) was answered with a %s response instead of being ignored" % rt.code_str(c), wit(response=(rt.code_str(c), tk.hex(), p_[:20].hex())), case)
+                    else:
+                        rep.violation("e2e-server/unexpected-frame", "the server context wrote a frame nothing asked for", wit(frame=(rt.code_str(c), tk.hex(), p_[:20].hex())), case)
+                    outcome = "violation"
+            rep.case(("e2es", tuple(item_sig(it) for it in items), ccl, outcome), nontrivial=True)
+            if i < 2:
+                rep.sample({"section": "e2e-server", "items": [it.brief() for it in items], "chunking": ccl, "written": [rt.describe(f) for f in frames[:6]]})
+        finally:
+            await self.shutdown_ctx(ctx)
+
+    async def shutdown_ctx(self, ctx):
+        try:
+            await ctx.shutdown()
+        except Exception as e:  # shutdown behaviour is C18's subject; only counted here
+            self.rep.count("context_shutdown_raised_" + type(e).__name__)
+
+    def e2e_one(self, kind, i):
+        coro = self.e2e_client_case(i) if kind == "e2ec" else self.e2e_server_case(i)
+        before = len(self.env.loop.exceptions)
+        try:
+            self.env.loop.run_until_complete(coro)
+        except (self.env.vloop.Hang, self.env.vloop.HorizonExceeded) as e:
+            self.rep.inconc("e2e scenario %s: loop watchdog %s" % (kind, type(e).__name__))
+        except Exception as e:
+            self.rep.inconc("e2e scenario %s: harness exception %s" % (kind, self.rep.exception_witness(e)[-1200:]))
+        self.env.spin()
+        if len(self.env.loop.exceptions) > before:
+            self.rep.count("loop_exception_handler_calls", len(self.env.loop.exceptions) - before)
+            for x in self.env.loop.exceptions[before:]:
+                self.rep.seen("loop_exception_types", str(x.get("exc_type")))
+
+    def e2e(self):
+        n = 12 if self.quick else 600
+        for j in range(n):
+            i = self.shard["index"] + j * self.shard["of"]
+            self.e2e_one("e2ec", i)
+            self.e2e_one("e2es", i)
+
+    # -- replay ---------------------------------------------------------------------------------
+    def replay(self, case):
+        k = case[0]
+        if k == "short":
+            self.short_one(case[1], case[2], only_mask=case[3])
+        elif k == "seq":
+            self.seq_one(case[1], case[2], only_ci=case[3] if len(case) > 3 else None)
+        elif k == "len":
+            self.len_one(case[1], case[2], case[3], case[4], case[5], only_ci=case[6] if len(case) > 6 else None)
+        elif k == "badpos":
+            self.badpos_one(case[1], case[2], case[3], case[4], only_ci=case[5] if len(case) > 5 else None)
+        elif k == "sigopt":
+            self.sigopt_one(case[1], case[2], case[3], case[4], only_ci=case[5] if len(case) > 5 else None)
+        elif k == "oversize":
+            self.oversize_one(case[1], case[2], case[3], only_ci=case[4] if len(case) > 4 else None)
+        elif k == "outgrid":
+            self.outgrid_one(*case[1:])
+        elif k == "out":
+            self.outrand_one(case[1], case[2])
+        elif k == "out-noresponse":
+            self.out_noresponse(case[1])
+        elif k in ("e2ec", "e2es"):
+            self.e2e_one(k, case[1])
+        elif k == "owncsm":
+            Rig(self.env, case[1])
+        else:
+            self.rep.inconc("unknown replay case %r" % (case,))
+
+
+def run_shard(shard, rep, only=None):
+    import warnings
+
+    warnings.simplefilter("ignore", DeprecationWarning)
+    env = Env(rep)
+    try:
+        s = Sections(env, shard, only)
+        if only is not None:
+            s.replay(only)
+            return
+        s.lengths()
+        s.badpos()
+        s.sigopt()
+        s.oversize()
+        s.outgoing()
+        s.seq()
+        s.e2e()
+        s.short()
+    finally:
+        env.close()
